@@ -447,4 +447,3 @@ Proof.
   intros ops l1 q l2 e H. eapply ok_trace_split. rewrite <- H. apply trace_cinv. apply cinv_init.
 Qed.
 
-(* a default processor writes at most one block *)
